@@ -16,3 +16,15 @@ bad=[v for r in res for v in r['viols'] if v['cause']!='alias']
 print("traces",len(res),"histories",sum(len(r['hist']) for r in res),"violations",sum(len(r['viols']) for r in res),"non-alias",len(bad))
 for v in bad[:15]:
     print(json.dumps({k:v[k] for k in ('p','what','cause','hist','line','trace')})[:300], json.dumps(v['detail'])[:200])
+ms=[r.get('model',{}) for r in res]
+print("model: steps",sum(m.get('steps',0) for m in ms),"matched",sum(m.get('matched',0) for m in ms),"skipped",sum(m.get('skipped',0) for m in ms),"errors",sum(1 for m in ms if m.get('error')))
+import collections
+c=collections.Counter()
+for m in ms:
+    for d in m.get('drift',[]):
+        c[(d['op'],tuple(d['what']))]+=1
+for k,v in c.most_common(20): print(v,k)
+for m in ms:
+    for d in m.get('drift',[])[:1]:
+        print(d)
+    if m.get('error'): print(m['error'][:500])
